@@ -105,7 +105,10 @@ class Encoded(Typed):
         for child in parent.getChildren():
             ref = child.get(name, ns)
             if ref is None:
-                parent.addPrefix(ns[0], ns[1])
+                # Declared on the child itself: a child shared by several
+                # (multiref) referrers resolves prefixes through only one of
+                # them.
+                child.addPrefix(ns[0], ns[1])
                 attr = ':'.join((ns[0], name))
                 child.set(attr, xty)
         return self
